@@ -36,6 +36,7 @@ func checkC17(c *Check) {
 	}
 	c17R1(c, validate, merge, urls)
 	configBytesAsRead(c, "C17.R1", validate)
+	urlValidationVisitsEveryFilter(c, "C17.R1", urls)
 	c17R2(c, validate, merge, defaults, oidcURLs)
 	c17R3(c, merge)
 	c17R4(c, validate)
@@ -601,6 +602,7 @@ func c17R2(c *Check, validate, merge, defaults, oidcURLs *ssa.Function) {
 	chk(oidcURLs, "callback/non-root", "hasRootPath", idOIDCConfig+".GetCallbackUri", "callback URI must not have the root path")
 	chk(merge, "logout/non-root", "isRootPath", pkgCfgOIDC+".LogoutConfig.GetPath", "logout path must not be the root path")
 	// logout path != callback path on the merged filter config
+	verbatimBad := ""
 	okDiff := false
 	for _, b := range merge.Blocks {
 		for _, ins := range b.Instrs {
@@ -633,6 +635,19 @@ func c17R2(c *Check, validate, merge, defaults, oidcURLs *ssa.Function) {
 				}
 			}
 			if hasLogout && hasCb && fromFilter {
+				// both sides verbatim: the logout side is GetPath() itself, the callback side the Path field of the parsed
+				// callback URI — a normalisation (path.Clean, TrimSuffix, ToLower …) applied to one side only makes equal
+				// paths in non-canonical spelling compare unequal
+				for _, side := range []ssa.Value{bo.X, bo.Y} {
+					v := resolveCell(stripConv(side))
+					if gc, _, isC := asCall(v); isC && isCallTo(gc, pkgCfgOIDC+".LogoutConfig.GetPath") {
+						continue
+					}
+					if _, f, isL := fieldLoad(v); isL && f != nil && f.Name() == "Path" {
+						continue
+					}
+					verbatimBad = descDepth(v, 3)
+				}
 				// true edge appends/returns ErrMustBeDifferentPath
 				g := P.SSA[pkgInt].Var("ErrMustBeDifferentPath")
 				for _, s := range trueSuccessors(bo) {
@@ -659,6 +674,8 @@ func c17R2(c *Check, validate, merge, defaults, oidcURLs *ssa.Function) {
 			}
 		}
 	}
+	c.Obl(verbatimBad == "", "C17.R2", "logout/differs-compares-verbatim", P.Pos(merge.Pos()), "the two paths are compared as configured",
+		"the callback/logout distinctness test compares "+verbatimBad+" instead of the path itself: identical paths in non-canonical spelling are accepted")
 	c.Obl(okDiff, "C17.R2", "logout/differs-from-callback", P.Pos(merge.Pos()), "callback path == logout path (both of the filter's merged configuration) yields ErrMustBeDifferentPath",
 		"the comparison of the merged filter's callback path with its logout path no longer yields ErrMustBeDifferentPath")
 	// endpoints or discovery
@@ -1337,4 +1354,35 @@ func configBytesAsRead(c *Check, rule string, validate *ssa.Function) {
 			"the configuration decoder is given "+bad+" instead of the bytes read from the file: configured strings no longer mean what the file says")
 	}
 	c.Obl(n >= 1, rule, "config-decode-site", P.Pos(validate.Pos()), fmt.Sprintf("%d decode site(s)", n), "no protojson.Unmarshal call found in Validate (anchor lost)")
+}
+
+// urlValidationVisitsEveryFilter: the loops of validateURLs are left only when their list is exhausted or with
+// an error: no edge leads from a loop body to the code after the loop (a `break` where `continue` was meant
+// skips the URL validation of every later filter of the chain, on which the merge step relies).
+func urlValidationVisitsEveryFilter(c *Check, rule string, urls *ssa.Function) {
+	P := c.P
+	n := 0
+	for _, h := range urls.Blocks {
+		if h.Comment != "rangeindex.loop" && h.Comment != "rangeiter.loop" && h.Comment != "for.loop" {
+			continue
+		}
+		if len(h.Succs) != 2 {
+			continue
+		}
+		// exit successor: the one from which the head is not reachable without … it is the done block
+		exit := h.Succs[1] // the successor taken when the loop condition is false
+		n++
+		bad := ""
+		for _, p := range exit.Preds {
+			if p == h {
+				continue
+			}
+			if h.Dominates(p) {
+				bad = posOf(P, p.Instrs[len(p.Instrs)-1])
+			}
+		}
+		c.Obl(bad == "", rule, fmt.Sprintf("url-validation-loop-exhaustive#%d", n), P.Pos(instrPos(h.Instrs[len(h.Instrs)-1])), "the loop is left only when its list is exhausted (or with an error)",
+			"a loop of validateURLs can be left from inside its body ("+bad+") without an error: the filters that follow are not validated")
+	}
+	c.Obl(n >= 2, rule, "url-validation-loops", P.Pos(urls.Pos()), fmt.Sprintf("%d loops in validateURLs", n), "the chain/filter loops of validateURLs were not found (anchor lost)")
 }
